@@ -1,7 +1,23 @@
 """C06 — bisync, step level (see bisynccheck.py / bisynclib.py)."""
-from . import bisynccheck
-from .bisynccheck import replay  # noqa: F401
+from mirsmt.prove import Prover
+from . import bisynccheck, hexname
+from .bisynccheck import replay as _replay
 
 
 def run(R, tier, seed):
     bisynccheck.run(R, "C06", tier, seed)
+    # the conflict-copy NAME: `<path>.conflict-<host>-<first 12 hex of its hash>` - the helper producing those 12 digits, for every digest
+    R.assumptions += ["bidir::short_hex is decided on all 2^256 digests (write!(\"{b:02x}\") decoded from its template); in the apply / run obligations it is a summary"]
+    hexname.run(R, Prover(R, tier), "C06", "short_hex")
+
+
+def replay(path):
+    import json
+    case = json.load(open(path))["case"]
+    if case.get("fn") == "short_names":
+        from . import hubnative
+        c = {k: v for k, v in case.items() if k not in ("observed", "expected")}
+        for prof in ("dev", "release"):
+            print(prof, hubnative.run_cases([c], prof)[0], "expected", case.get("expected"))
+        return 0
+    return _replay(path)
